@@ -2,7 +2,8 @@
     reader ([sized_pot]: queued values of records of non-zero width times their
     width, plus the bits still pending in the bit buffers) and what
     [bsr_append], [bsr_extract], [unpack_loop], [unpack_type],
-    [min_queue_size], [parse_streams] and [pop_fronts] do to it.  No programs here. *)
+    [parse_streams] and [pop_fronts] do to it.  Records of zero width are not stored:
+    their queues stay empty ([zero_bounded 0]).  No programs here. *)
 From E57 Require Import Base.Prelude Model.PagedReader Model.BsRead Model.Record Model.Prog Model.QueueReader.
 From E57 Require Import Proofs.PageSpecLemmas Proofs.QueueReaderLemmas Proofs.PagedReaderCache.
 From Coq Require Import ZifyN ZifyNat ZifyBool.
@@ -36,18 +37,18 @@ Definition qshape (q : qr) : Prop :=
 Definition qbound (off0 : N) (q : qr) (off : N) : Prop :=
   off0 <= off /\
   sized_pot (q_proto q) (q_streams q) (q_queues q) <= 8 * (off - off0) /\
-  zero_bounded (8 * (off - off0)) (q_proto q) (q_queues q).
+  zero_bounded 0 (q_proto q) (q_queues q).       (* queues of zero-width records are empty *)
 
 (** reader/queue states reachable from [qr_new] on a fault-free device by
     successful advances and pops; [off0] is the logical offset after [qr_new] *)
 Inductive qreach (ps : N) (phys : list N) (off0 : N) : qr -> pr -> Prop :=
-| QR_new s fo proto s' q :
-    pr_inv ps phys s -> rrun (qr_new fo proto) s = (s', Ok q) -> off0 = pr_off s' ->
+| QR_new s fo recs proto s' q :
+    pr_inv ps phys s -> rrun (qr_new fo recs proto) s = (s', Ok q) -> off0 = pr_off s' ->
     qreach ps phys off0 q s'
 | QR_adv q s q' s' :
     qreach ps phys off0 q s -> rrun (qr_advance q) s = (s', Ok q') -> qreach ps phys off0 q' s'
 | QR_pop q s vs qs :
-    qreach ps phys off0 q s -> pop_fronts (q_queues q) = Ok (vs, qs) ->
+    qreach ps phys off0 q s -> pop_fronts (q_proto q) (q_queues q) = Ok (vs, qs) ->
     qreach ps phys off0 (mkQr (q_proto q) (q_streams q) qs) s.
 
 (** * Small arithmetic, over plain variables *)
@@ -172,8 +173,7 @@ Qed.
 
 Lemma qbound_mono off0 q off off' : off <= off' -> qbound off0 q off -> qbound off0 q off'.
 Proof.
-  intros Hle (H1 & H2 & H3). split; [lia|]. split; [lia|].
-  eapply zero_bounded_mono; [|exact H3]. lia.
+  intros Hle (H1 & H2 & H3). split; [lia|]. split; [lia|exact H3].
 Qed.
 
 Lemma sized_pot_new proto :
@@ -190,42 +190,16 @@ Proof.
   cbn [map zero_bounded]. split; [intros _; rewrite (@len_nil rvalue); lia|exact IH].
 Qed.
 
-(** * [min_queue_size]: the minimum is at most the bits held *)
-
-Lemma mqs_bound : forall proto streams queues acc m,
-  min_queue_size proto streams queues acc = Ok (Some m) ->
-  match acc with Some a => m <= a | None => m <= sized_pot proto streams queues end.
-Proof.
-  induction proto as [|t pr IH]; intros streams queues acc m.
-  { cbn [min_queue_size]. intros H. injection H as ->. lia. }
-  destruct streams as [|s sr].
-  { cbn [min_queue_size]. intros H. injection H as ->. lia. }
-  destruct queues as [|q qr].
-  { cbn [min_queue_size]. intros H. injection H as ->. lia. }
-  cbn [min_queue_size sized_pot]. cbv zeta.
-  destruct (bit_size t =? 0) eqn:Ez.
-  - intros H. apply IH in H. destruct acc; lia.
-  - destruct (bsr_available s) as [av|k|] eqn:Ea; [|discriminate|discriminate].
-    apply available_pending in Ea. apply N.eqb_neq in Ez.
-    pose proof (items_le av (bit_size t) (len q) Ez) as Hi.
-    intros H. apply IH in H.
-    set (b := bit_size t) in *. set (X := len q * b) in *. set (it := av / b + len q) in *.
-    set (SP := sized_pot pr sr qr) in *. clearbody X it SP. subst av.
-    destruct acc as [a|].
-    + destruct (it <? a) eqn:E1; lia.
-    + lia.
-Qed.
-
 (** * [parse_streams] *)
 
-Lemma parse_streams_pot : forall proto streams queues m ss qs,
-  parse_streams proto streams queues m = Ok (ss, qs) ->
+Lemma parse_streams_pot : forall proto streams queues ss qs,
+  parse_streams proto streams queues = Ok (ss, qs) ->
   sized_pot proto ss qs <= sized_pot proto streams queues /\
-  (forall B, m <= B -> zero_bounded B proto queues -> zero_bounded B proto qs) /\
+  (forall B, zero_bounded B proto queues -> zero_bounded B proto qs) /\
   (length streams = length proto -> length queues = length proto ->
    length ss = length proto /\ length qs = length proto).
 Proof.
-  induction proto as [|t pr IH]; intros streams queues m ss qs.
+  induction proto as [|t pr IH]; intros streams queues ss qs.
   { cbn [parse_streams]. intros H. injection H as <- <-. cbn [sized_pot zero_bounded length].
     split; [lia|]. split; auto. }
   destruct streams as [|s sr].
@@ -235,86 +209,79 @@ Proof.
   { cbn [parse_streams]. intros H. injection H as <- <-. cbn.
     split; [lia|]. split; [auto|]. intros; discriminate. }
   cbn [parse_streams].
-  (* the per-stream step, uniformly *)
   assert (Hone : forall s' q',
-    match t with
-    | TSingle | TDouble => res_map (fun '(s', vs) => (s', q ++ vs)) (unpack_type t s)
-    | TScaled mn mx =>
-        if bit_size t =? 0 then Ok (s, q ++ repeat (VScaled mn) (N.to_nat (m - len q)))
-        else res_map (fun '(s', vs) => (s', q ++ vs)) (unpack_type t s)
-    | TInteger mn mx =>
-        if bit_size t =? 0 then Ok (s, q ++ repeat (VInteger mn) (N.to_nat (m - len q)))
-        else res_map (fun '(s', vs) => (s', q ++ vs)) (unpack_type t s)
-    end = Ok (s', q') ->
+    (if bit_size t =? 0 then Ok (s, q)
+     else res_map (fun '(s', vs) => (s', q ++ vs)) (unpack_type t s)) = Ok (s', q') ->
     (if bit_size t =? 0 then 0 else len q' * bit_size t + pending s')
       <= (if bit_size t =? 0 then 0 else len q * bit_size t + pending s) /\
-    (forall B, m <= B -> (bit_size t = 0 -> len q <= B) -> (bit_size t = 0 -> len q' <= B))).
-  { intros s' q'.
-    assert (Hsized : res_map (fun '(s', vs) => (s', q ++ vs)) (unpack_type t s) = Ok (s', q') ->
-                     bit_size t =? 0 = false ->
-                     len q' * bit_size t + pending s' <= len q * bit_size t + pending s).
-    { destruct (unpack_type t s) as [[s1 vs]|k|] eqn:Eu; cbn [res_map]; [|discriminate|discriminate].
-      intros H _. injection H as <- <-. apply unpack_type_pot in Eu.
-      rewrite qlen_app. rewrite N.mul_add_distr_r.
-      set (X := len q * bit_size t) in *. set (Y := len vs * bit_size t) in *. clearbody X Y. lia. }
-    assert (Hzero : forall v : rvalue, bit_size t =? 0 = true ->
-              Ok (s, q ++ repeat v (N.to_nat (m - len q))) = Ok (s', q') ->
-              forall B, m <= B -> (bit_size t = 0 -> len q <= B) -> (bit_size t = 0 -> len q' <= B)).
-    { intros v Ez H B HB Hq Hz. injection H as <- <-. specialize (Hq Hz).
-      rewrite qlen_app, qlen_repeat. lia. }
-    destruct t as [| |mn mx|mn mx].
-    - intros H. split; [apply Hsized; [exact H|reflexivity]|]. cbn [bit_size]. intros; discriminate.
-    - intros H. split; [apply Hsized; [exact H|reflexivity]|]. cbn [bit_size]. intros; discriminate.
-    - destruct (bit_size (TScaled mn mx) =? 0) eqn:Ez.
-      + intros H. split; [lia|]. eapply Hzero; [reflexivity|exact H].
-      + intros H. split; [apply Hsized; [exact H|reflexivity]|].
-        apply N.eqb_neq in Ez. intros; contradiction.
-    - destruct (bit_size (TInteger mn mx) =? 0) eqn:Ez.
-      + intros H. split; [lia|]. eapply Hzero; [reflexivity|exact H].
-      + intros H. split; [apply Hsized; [exact H|reflexivity]|].
-        apply N.eqb_neq in Ez. intros; contradiction. }
+    (forall B, (bit_size t = 0 -> len q <= B) -> (bit_size t = 0 -> len q' <= B))).
+  { intros s' q'. destruct (bit_size t =? 0) eqn:Ez.
+    - intros H. injection H as <- <-. split; [lia|auto].
+    - destruct (unpack_type t s) as [[s1 vs]|k|] eqn:Eu; cbn [res_map]; [|discriminate|discriminate].
+      intros H. injection H as <- <-. apply unpack_type_pot in Eu.
+      split.
+      + rewrite qlen_app. rewrite N.mul_add_distr_r.
+        set (X := len q * bit_size t) in *. set (Y := len vs * bit_size t) in *. clearbody X Y. lia.
+      + apply N.eqb_neq in Ez. intros; contradiction. }
   match goal with |- match ?one with _ => _ end = _ -> _ => destruct one as [[s' q']|k|] eqn:Eone end;
     [|discriminate|discriminate].
   specialize (Hone s' q' eq_refl). clear Eone. destruct Hone as [Hp Hz].
-  destruct (parse_streams pr sr qr m) as [[ss1 qs1]|k|] eqn:Er; [|discriminate|discriminate].
+  destruct (parse_streams pr sr qr) as [[ss1 qs1]|k|] eqn:Er; [|discriminate|discriminate].
   intros H. injection H as <- <-.
-  destruct (IH _ _ _ _ _ Er) as (IH1 & IH2 & IH3).
+  destruct (IH _ _ _ _ Er) as (IH1 & IH2 & IH3).
   cbn [sized_pot zero_bounded length].
   split; [|split].
   - set (A1 := if bit_size t =? 0 then 0 else len q' * bit_size t + pending s') in *.
     set (A2 := if bit_size t =? 0 then 0 else len q * bit_size t + pending s) in *.
     clearbody A1 A2. lia.
-  - intros B HB [H1 H2]. split; [apply (Hz B HB H1)|apply IH2; assumption].
+  - intros B [H1 H2]. split; [apply (Hz B H1)|apply IH2; assumption].
   - intros L1 L2. injection L1 as L1. injection L2 as L2.
     destruct (IH3 L1 L2) as [-> ->]. split; reflexivity.
 Qed.
 
 (** * [pop_fronts] *)
 
-Lemma pop_fronts_pot : forall qs vs qs',
-  pop_fronts qs = Ok (vs, qs') ->
-  length qs' = length qs /\
-  forall proto, (forall streams, sized_pot proto streams qs' <= sized_pot proto streams qs) /\
-                (forall B, zero_bounded B proto qs -> zero_bounded B proto qs').
+Lemma pop_fronts_pot : forall proto qs vs qs',
+  pop_fronts proto qs = Ok (vs, qs') ->
+  (length qs = length proto -> length qs' = length qs) /\
+  (forall streams, sized_pot proto streams qs' <= sized_pot proto streams qs) /\
+  (forall B, zero_bounded B proto qs -> zero_bounded B proto qs').
 Proof.
-  induction qs as [|q r IH]; intros vs qs'; cbn [pop_fronts].
-  { intros H. injection H as <- <-. split; [reflexivity|]. intros proto. split; [intros; lia|auto]. }
-  destruct q as [|v q]; [discriminate|].
-  destruct (pop_fronts r) as [[vs1 r1]|k|] eqn:Er; [|discriminate|discriminate].
+  induction proto as [|t pr IH]; intros qs vs qs'.
+  { cbn [pop_fronts]. intros H. injection H as <- <-.
+    split; [destruct qs; [reflexivity|discriminate]|]. split; [intros; cbn; lia|auto]. }
+  destruct qs as [|q r].
+  { cbn [pop_fronts]. intros H. injection H as <- <-. split; [auto|]. split; [intros; lia|auto]. }
+  cbn [pop_fronts].
+  match goal with |- match ?one with _ => _ end = _ -> _ => destruct one as [[v q']|k|] eqn:Eone end;
+    [|discriminate|discriminate].
+  destruct (pop_fronts pr r) as [[vs1 r1]|k|] eqn:Er; [|discriminate|discriminate].
   intros H. injection H as <- <-.
-  destruct (IH _ _ eq_refl) as (IL & IP).
-  split; [cbn [length]; congruence|].
-  intros [|t pr].
-  { split; [intros; cbn; lia|auto]. }
-  destruct (IP pr) as (IP1 & IP2).
-  split.
+  destruct (IH _ _ _ Er) as (IL & IP1 & IP2).
+  (* what one step does to its queue *)
+  assert (Hq : (bit_size t =? 0 = true /\ q' = q) \/ (bit_size t =? 0 = false /\ q = v :: q')).
+  { revert Eone. clear.
+    destruct t as [| |mn mx|mn mx]; cbn [bit_size].
+    - change (32 =? 0) with false. destruct q as [|v0 q0]; [discriminate|].
+      intros H. injection H as <- <-. right. split; reflexivity.
+    - change (64 =? 0) with false. destruct q as [|v0 q0]; [discriminate|].
+      intros H. injection H as <- <-. right. split; reflexivity.
+    - destruct (integer_bits mn mx =? 0).
+      + intros H. injection H as _ <-. left. split; reflexivity.
+      + destruct q as [|v0 q0]; [discriminate|]. intros H. injection H as <- <-. right. split; reflexivity.
+    - destruct (integer_bits mn mx =? 0).
+      + intros H. injection H as _ <-. left. split; reflexivity.
+      + destruct q as [|v0 q0]; [discriminate|]. intros H. injection H as <- <-. right. split; reflexivity. }
+  split; [|split].
+  - cbn [length]. intros L. injection L as L. rewrite (IL L). reflexivity.
   - intros [|s sr]; [cbn; lia|]. cbn [sized_pot]. specialize (IP1 sr).
-    rewrite (qlen_cons v q).
-    destruct (bit_size t =? 0); [lia|].
-    replace ((1 + len q) * bit_size t) with (len q * bit_size t + bit_size t) by ring.
-    set (X := len q * bit_size t) in *. clearbody X. lia.
+    destruct Hq as [[Ez ->]|[Ez ->]]; rewrite Ez; [lia|].
+    rewrite (qlen_cons v q').
+    replace ((1 + len q') * bit_size t) with (len q' * bit_size t + bit_size t) by ring.
+    set (X := len q' * bit_size t) in *. clearbody X. lia.
   - intros B. cbn [zero_bounded]. intros [H1 H2]. split; [|apply IP2; exact H2].
-    intros Hz. specialize (H1 Hz). rewrite qlen_cons in H1. lia.
+    intros Hz. specialize (H1 Hz).
+    destruct Hq as [[Ez ->]|[Ez ->]]; [exact H1|]. rewrite qlen_cons in H1. lia.
 Qed.
 
 (** * Number of queued values from the potential *)
@@ -327,24 +294,21 @@ Qed.
 
 Lemma values_from_pot : forall proto streams queues D,
   length streams = length proto -> length queues = length proto ->
-  sized_pot proto streams queues <= D -> zero_bounded D proto queues ->
+  sized_pot proto streams queues <= D -> zero_bounded 0 proto queues ->
   Forall (fun x => len x <= D) queues /\
-  fold_right (fun x acc => len x + acc) 0 queues <= sized_pot proto streams queues + zero_count proto * D.
+  fold_right (fun x acc => len x + acc) 0 queues <= sized_pot proto streams queues.
 Proof.
   induction proto as [|t pr IH]; intros streams queues D L1 L2 HP HZ.
   { destruct queues; [|discriminate]. cbn. split; [constructor|lia]. }
   destruct streams as [|s sr]; [discriminate|]. destruct queues as [|q qr]; [discriminate|].
   injection L1 as L1. injection L2 as L2.
   cbn [sized_pot zero_bounded fold_right] in *. destruct HZ as [HZ1 HZ2].
-  rewrite zero_count_cons.
   assert (HP' : sized_pot pr sr qr <= D) by lia.
   destruct (IH sr qr D L1 L2 HP' HZ2) as [IF IT].
-  rewrite N.mul_add_distr_r.
-  set (SP := sized_pot pr sr qr) in *. set (T := fold_right _ 0 qr) in *.
-  set (ZD := zero_count pr * D) in *. clearbody SP T ZD.
+  set (SP := sized_pot pr sr qr) in *. set (T := fold_right _ 0 qr) in *. clearbody SP T.
   destruct (bit_size t =? 0) eqn:Ez.
   - apply N.eqb_eq in Ez. specialize (HZ1 Ez).
-    split; [constructor; assumption|]. lia.
+    split; [constructor; [lia|assumption]|]. lia.
   - apply N.eqb_neq in Ez.
     assert (Hq : len q <= len q * bit_size t) by nia.
     set (X := len q * bit_size t) in *. clearbody X.
